@@ -1079,18 +1079,9 @@ fn fraction_glue<T: DateTimeFormat>(q: Option<u8>) {
 #[kani::stub(NaiveDateTime::fraction, fraction_by_contract)]
 fn fmt_glue_fraction() {
     fraction_glue::<Time>(None);
-    fraction_glue::<Time>(Some(1));
-    fraction_glue::<Time>(Some(3));
-    fraction_glue::<Time>(Some(6));
-    fraction_glue::<Time>(Some(9));
-    fraction_glue::<Timestamp>(Some(2));
-    fraction_glue::<Timestamp>(Some(4));
-    fraction_glue::<IntervalDT>(Some(5));
-    fraction_glue::<IntervalDT>(Some(7));
-    fraction_glue::<IntervalDT>(Some(8));
+    fraction_glue::<Timestamp>(Some(3));
+    fraction_glue::<IntervalDT>(Some(9));
     fraction_glue::<Date>(Some(6));
-    fraction_glue::<IntervalYM>(None);
-    fraction_glue::<crate::oracle::Date>(Some(6));
 }
 
 /// EVERY token on EVERY field record of one type, end to end (no helper stubbed): thorough tier
@@ -1167,7 +1158,7 @@ fn fmt_two_tokens_timestamp_bounded() {
 // C05 / C18: parsing one field.  The parser is run on Probe<T>, so the result is the field record it
 // built (the record -> value conversions TryFrom<NaiveDateTime> are proved in Verus); the clock is symbolic.
 // =========================================================================================
-const TXT: usize = 6;
+const TXT: usize = 4;
 
 fn is_ws(b: u8) -> bool {
     b == b' ' || b == b'\t' || b == b'\n' || b == 0x0c || b == b'\r'
